@@ -548,4 +548,40 @@ def loopBodies (scratch : List String) (script : List SStmt) : List (List BStmt)
 /-- the static verdict for a script: every parallel loop body passes `lockOK` -/
 def scriptOK (scratch : List String) (script : List SStmt) : Bool := (loopBodies scratch script).all lockOK
 
+/-! ## `Topology._locate` with `skip_missing=False`: fast-forward on failure
+
+Claims are atomic here (justified by `range_at_most_once`: the claims of the real counter are `0,1,2,…` in the order of the
+stores).  `claim w`: worker `w`, not busy, takes the next point — unless it is fast-forwarding (`for ipoint in ipoints: pass`),
+in which case the point is consumed unprocessed.  `finish w`: the worker finishes its point: located (`mark = some true`) or
+missing (`ielems[ipoint] = -1`, `mark = some false`, and from now on it fast-forwards). -/
+
+structure LState where
+  idx : Nat
+  cur : Nat → Option Nat
+  drain : Nat → Bool
+  mark : Nat → Option Bool
+
+inductive LEv where
+  | claim (w : Nat)
+  | finish (w : Nat)
+deriving Repr, DecidableEq
+
+def lstep (n : Nat) (miss : Nat → Bool) (s : LState) : LEv → LState
+  | .claim w =>
+    if s.cur w = none ∧ s.idx < n then
+      if s.drain w then { s with idx := s.idx + 1 }
+      else { s with idx := s.idx + 1, cur := upd s.cur w (some s.idx) }
+    else s
+  | .finish w =>
+    match s.cur w with
+    | none => s
+    | some i =>
+      if miss i then { s with cur := upd s.cur w none, mark := upd s.mark i (some false), drain := upd s.drain w true }
+      else { s with cur := upd s.cur w none, mark := upd s.mark i (some true) }
+
+def linit : LState := { idx := 0, cur := fun _ => none, drain := fun _ => false, mark := fun _ => none }
+
+def lrun (n : Nat) (miss : Nat → Bool) (σ : List LEv) (s : LState) : LState := σ.foldl (lstep n miss) s
+
+
 end NutilsVerif.C16
